@@ -547,3 +547,24 @@ Proof.
   destruct (link_transform g h (flat_arr d0 g vals) 1 Wg Wh Hn Hc eq_refl) as [out [H1 [H2 [_ [H4 _]]]]].
   exists out. split; [exact H1|]. split; [exact H2|]. intros c Hin. rewrite (H4 0 c Hin). reflexivity.
 Qed.
+
+(** * A relay with its own layout between source and consumer keeps every value at its location *)
+Theorem relay_transform {A : Type} g m h (d : arr A) T :
+  wf_axes g -> wf_axes m -> wf_axes h -> 1 <= gdim g ->
+  compatible g m = true -> compatible m h = true ->
+  a_shape d = T :: data_shape g ->
+  exists out,
+    relay_deliver g m h d = LOk out /\
+    a_shape out = T :: data_shape h /\
+    canon_shape g = canon_shape h /\
+    forall t c, inb (canon_shape h) c ->
+      a_get out (t :: layout_idx h c) = a_get d (t :: layout_idx g c).
+Proof.
+  intros Wg Wm Wh Hn Hgm Hmh Hs.
+  destruct (link_transform g m d T Wg Wm Hn Hgm Hs) as [a [Ha [Has [HL1 [Hav _]]]]].
+  assert (Hnm : 1 <= gdim m).
+  { destruct (proj1 (compatible_iff g m Wg Wm) Hgm) as [E _]. rewrite <- E. exact Hn. }
+  destruct (link_transform m h a T Wm Wh Hnm Hmh Has) as [out [Ho [Hos [HL2 [Hov _]]]]].
+  exists out. unfold relay_deliver. rewrite Ha. split; [exact Ho|]. split; [exact Hos|].
+  split; [congruence|]. intros t c Hc. rewrite (Hov t c Hc). apply Hav. rewrite HL2. exact Hc.
+Qed.
